@@ -26,6 +26,7 @@ import (
 	_ "unsafe"
 
 	"github.com/feichai0017/NoKV/kv"
+	"github.com/feichai0017/NoKV/verifhook"
 	"github.com/pkg/errors"
 )
 
@@ -166,6 +167,9 @@ func (n *node) getVs(arena *Arena) kv.ValueStruct {
 //}
 
 func (s *Skiplist) randomHeight() int {
+	if n := verifhook.Int("skiplist.height"); n > 0 && n <= maxHeight {
+		return n
+	}
 	h := 1
 	for h < maxHeight && FastRand() <= heightIncrease {
 		h++
@@ -308,10 +312,12 @@ func (s *Skiplist) Add(e *kv.Entry) {
 			vo := s.arena.putVal(v)
 			encValue := encodeValue(vo, v.EncodedSize())
 			prevNode := s.arena.getNode(prev[i])
+			verifhook.Yield(s, "skiplist.add.overwrite")
 			prevNode.setValue(s.arena, encValue)
 			return
 		}
 	}
+	verifhook.Yield(s, "skiplist.add.spliced")
 
 	// We do need to create a new node.
 	height := s.randomHeight()
@@ -320,6 +326,7 @@ func (s *Skiplist) Add(e *kv.Entry) {
 	// Try to increase s.height via CAS.
 	listHeight = s.getHeight()
 	for height > int(listHeight) {
+		verifhook.Yield(s, "skiplist.add.height-cas")
 		if atomic.CompareAndSwapInt32(&s.height, listHeight, int32(height)) {
 			// Successfully increased skiplist.height.
 			break
@@ -342,6 +349,7 @@ func (s *Skiplist) Add(e *kv.Entry) {
 			}
 			x.tower[i] = next[i]
 			pnode := s.arena.getNode(prev[i])
+			verifhook.Yield(s, "skiplist.add.tower-cas")
 			if pnode.casNextOffset(i, next[i], s.arena.getNodeOffset(x)) {
 				// Managed to insert x between prev[i] and next[i]. Go to the next level.
 				break
@@ -349,6 +357,7 @@ func (s *Skiplist) Add(e *kv.Entry) {
 			// CAS failed. We need to recompute prev and next.
 			// It is unlikely to be helpful to try to use a different level as we redo the search,
 			// because it is unlikely that lots of nodes are inserted between prev[i] and next[i].
+			verifhook.Yield(s, "skiplist.add.tower-retry")
 			prev[i], next[i] = s.findSpliceForLevel(key, prev[i], i)
 			if prev[i] == next[i] {
 				AssertTruef(i == 0, "Equality can happen only on base level: %d", i)
